@@ -1,5 +1,5 @@
 """C09 (MAC family: MacTrace.tla)."""
-from . import macfam, core
+from . import macfam, core, mcdata
 import glob, json, os
 PID = "C09"
 
@@ -37,8 +37,13 @@ def run():
                             ["hist=2", "profile=onlych"] + ([] if t else ["fronts=nb,async"])],
         'transmission on an illegal channel / data rate / power',
         "single-channel walk (every channel index once the only enabled one, ascending and descending: the transmission must use it) plus seeded random histories (9 regions x 4 (max power, gain) boards x join-bias settings) with CFLists, LinkADRReq, NewChannelReq, ADR back-off; every tx call's frequency, data rate and power is checked against Mac!TxChoices / MaxTxPower computed from the specification's own channel plan",
-        macfam.COMMON_ASSUMPTIONS, extra=[choice_stats])
+        macfam.COMMON_ASSUMPTIONS, extra=[choice_stats,
+            # beyond the default build: the uplinks the remote multicast set-up handler transmits on its own (feature `multicast`)
+            mcdata.extra(PID)])
 
 
 def replay(path):
+    with open(path) as f:
+        if json.load(f).get("mc"):
+            return mcdata.replay(PID, path)
     return macfam.replay(PID, path)
